@@ -435,6 +435,7 @@ impl World {
         n.fired_any = false;
         n.in_poll = true;
         n.polls += 1;
+        n.frame.clear();
         if changed {
             self.emit(Ev::WakerHanded { node: id, wid });
         }
@@ -448,14 +449,15 @@ impl World {
         n.last = Some(res);
         if res.is_final() {
             n.done = true;
+            n.final_val = val;
         }
         if res == Res::Pending {
             self.nontrivial_pending = true;
         }
         let parent = n.parent;
         self.emit(Ev::PollEnd { node: id, res, val });
-        if parent == world::ROOT {
-            self.frame.push((id, res, val));
+        if parent != world::NO_NODE {
+            self.nodes[parent as usize].frame.push((id, res, val));
         }
         crate::oracle::on_poll_end(self, id, res, val);
     }
